@@ -128,7 +128,8 @@ theorem C04_gen_blocked (fuel : Nat) (c : Call) (hc : Covered fuel c) (hr : c.me
       w'.port.log = w.port.log ∧ w'.port.nread = w.port.nread ∧ w'.obj.err = w.obj.err := by
   have hbl := blocked_of_attrs w hb
   have hp : Pre c w := by
-    cases c <;> simp only [Pre] <;> first | trivial | (intro h; rw [hbl] at h; cases h)
+    cases c <;> simp only [Pre] <;>
+      first | trivial | (intro h; rw [hbl] at h; cases h) | (simp [Call.method, Method.isRequest] at hr)
   have hsim := gen_bridge fuel c hc w hg hp
   rw [run_blocked srcParams scriptDev c hr (absWorld w) hbl] at hsim
   obtain ⟨w', h1, h2, hg'⟩ := sim_val hsim
@@ -152,11 +153,17 @@ theorem C04_gen_first_wins (fuel : Nat) (c : Call) (hc : Covered fuel c) (w : Py
   exact absOpt_str hk
 
 open Ebb3Gen in
-/-- **Histories (regenerated code).** For every history `pre ++ post` of calls of methods in S on the regenerated
-code (any script of the domain, side conditions `HistPre` for `reboot`/`bootload`): if an error `e` is recorded after
-`pre`, then after the whole history — hence, applying this to every prefix of `post`, after every call of `post` —
-the error is still `e`, not one byte more has been handed to `write`, not one more `readline` was made and the
-script is untouched; and (`C04_gen_blocked`) every request call of `post` returned its failure value. -/
+/-- **Histories (regenerated code), over ALL public methods — `connect` and `find_first` included.** For every history
+`pre ++ post` of calls of the regenerated methods, started in a world of the domain whose inputs satisfy the static
+side conditions `Env` (the environment arguments of each `connect` / `find_first` call are what the world's `ext`
+holds — port search through C19's `findFirst` of the `comports()` input, open outcome `ext.openOk` —, scripts with
+`SerialException` faults only when the history contains `connect`, no `RuntimeError` write fault when it contains
+`reboot` / `bootload`): if an error `e` is recorded after `pre`, then after the whole history the error is still `e`
+(hence, applying this to every prefix of `post`, after every call of `post`); and if `post` contains no `connect`,
+not one byte more has been handed to `write`, not one more `readline` was made and the scripts are untouched.
+Applied to `pre ++ p1` and `[c]` for a split `post = p1 ++ c :: p2`, the second part says that every call of `post`
+other than `connect` does no I/O at all, whatever surrounds it.  With `C04_gen_blocked`: every request call of `post`
+returned its failure value. -/
 example : ∃ (w : PyObj.World Gen.EBB3_Obj) (c : Call), Ebb3Gen.Good w ∧ Ebb3Gen.Covered 26 c ∧ c.method.isRequest = true ∧
     (∃ e, w.obj.err = .str e) :=
   ⟨⟨{ Gen.EBB3_Obj.init with port := .port, err := .str ['e'] }, ⟨[], [], [], 0⟩, {}⟩, .xy_move 1 2 3,
@@ -164,24 +171,36 @@ example : ∃ (w : PyObj.World Gen.EBB3_Obj) (c : Call), Ebb3Gen.Good w ∧ Ebb3
       (fun _ h => nomatch h)⟩,
     ⟨rfl, trivial, Nat.le_refl _⟩, rfl, ⟨_, rfl⟩⟩
 
+/-- the side conditions are satisfiable for a history that connects: an empty `comports()` list, nothing found -/
+example : ∃ (w : PyObj.World Gen.EBB3_Obj) (c : Call), Ebb3Gen.Good w ∧ Ebb3Gen.Covered 26 c ∧ c.method = .connect ∧
+    Ebb3Gen.Env c w :=
+  ⟨⟨Gen.EBB3_Obj.init, ⟨[], [], [], 0⟩, {}⟩, .connect none none none true,
+    ⟨⟨Or.inr rfl, trivial, trivial, Or.inl rfl, trivial, trivial, trivial⟩, (fun _ h => nomatch h), (fun _ h => nomatch h),
+      (fun _ h => nomatch h)⟩,
+    ⟨rfl, trivial, Nat.le_refl _⟩, rfl, ⟨⟨[], rfl, rfl⟩, rfl, (fun _ h => nomatch h), (fun _ h => nomatch h)⟩⟩
+
 open Ebb3Gen in
 theorem C04_gen_history (fuel : Nat) (pre post : List Call) (w : PyObj.World Gen.EBB3_Obj)
-    (hc : ∀ c ∈ pre ++ post, Covered fuel c) (hg : Good w) (hp : HistPre fuel (pre ++ post) w)
+    (hc : ∀ c ∈ pre ++ post, Covered fuel c) (hg : Good w) (hp : ∀ c ∈ pre ++ post, Env c w)
     (w1 : PyObj.World Gen.EBB3_Obj) (h1 : genFinal fuel pre w = some w1) (e : Str) (he : w1.obj.err = .str e) :
     ∃ w2, genFinal fuel (pre ++ post) w = some w2 ∧ w2.obj.err = .str e ∧
-      w2.port.log = w1.port.log ∧ w2.port.nread = w1.port.nread ∧
-      (absWorld w2).dev = (absWorld w1).dev := by
-  obtain ⟨w2, h2, h3, hg2⟩ := gen_final_sim fuel (pre ++ post) w hc hg hp
-  obtain ⟨w1', h1', h1abs, -, -⟩ := gen_prefix_sim fuel pre post w hc hg hp
+      ((∀ c ∈ post, c.method ≠ .connect) →
+        w2.port.log = w1.port.log ∧ w2.port.nread = w1.port.nread ∧ (absWorld w2).dev = (absWorld w1).dev) := by
+  have hp' := histPre_of_env fuel (pre ++ post) w hp
+  obtain ⟨w2, h2, h3, hg2⟩ := gen_final_sim fuel (pre ++ post) w hc hg hp'
+  obtain ⟨w1', h1', h1abs, -, -⟩ := gen_prefix_sim fuel pre post w hc hg hp'
   rw [h1] at h1'
   injection h1' with h1'
   subst h1'
   have hm : (finalWorld srcParams scriptDev pre (absWorld w)).st.err = some e := by
     rw [← h1abs]; simp [absWorld, absSt, he, absOpt]
-  have hq := finalWorld_quiet srcParams scriptDev post _ e hm
-    (fun c hc' => inS_ne_connect (hc c (by simp [hc'])).inS)
-  rw [← finalWorld_append, ← h3, ← h1abs] at hq
-  refine ⟨w2, h2, absOpt_str hq.2.2.2, hq.1, hq.2.1, hq.2.2.1⟩
+  refine ⟨w2, h2, ?_, fun hnc => ?_⟩
+  · have hk := finalWorld_err srcParams scriptDev post _ e hm
+    rw [← finalWorld_append, ← h3] at hk
+    exact absOpt_str hk
+  · have hq := finalWorld_quiet srcParams scriptDev post _ e hm hnc
+    rw [← finalWorld_append, ← h3, ← h1abs] at hq
+    exact ⟨hq.1, hq.2.1, hq.2.2.1⟩
 
 
 end Plotink
